@@ -159,7 +159,7 @@ def run(rep, tier, seed):
                            "patterns x 4 spellings (case, leading zeros), malformed mutations; MAC / IPv4 octet boundaries at "
                            "every position and malformed shapes; each assigned to src (and a third also to dst); plus random and "
                            "structured addresses (zero runs at every place, IPv4-mapped / -compatible / NAT64 prefixes, single "
-                           "bits, all ones) whose displayed text is assigned to the other field; distinct = distinct (family, text)")
+                           "bits, all ones) whose displayed text is assigned to the other field; targets behind an 802.1Q tag and in an IPv4 header with options; distinct = distinct (family, text)")
         rep.cov["exhaustive"] = False
         rep.sample({"program": jobs[0]["src"], "result": recs[0]})
     finally:
